@@ -38,6 +38,7 @@ func checkC07(r *Report, p *Program) {
 	r07_tables(r, p)
 	r09_tables(r, p, "R07.12")
 	conditionTables(r, p, "R07.13")
+	claimsTables(r, p, "R07.14")
 }
 
 // r07_9: which fields are revisioned. The default (all of spec) applies whenever the
@@ -373,7 +374,9 @@ func r07_3(r *Report, p *Program) {
 						if !(cf == -1 || cf == 1 && eq == 1) {
 							ok, why = false, sf("an iteration goes on to the next check with %s configured=%d equal=%d: the child's %s was not required to equal the configured one (path: %s)", fld, cf, eq, strings.ToLower(fld), pa.Cond())
 						}
-					} else if rt := pa.End.(*ssa.Return); isErrReturn(rt) && eq == 1 && fieldEq(other(fld)) != -1 && val(pa, -1, func(a string) bool { return strings.Contains(a, "GetStatusCondition)(") && strings.HasSuffix(a, " == nil)") }) != 1 {
+					} else if rt := pa.End.(*ssa.Return); isErrReturn(rt) && eq == 1 && fieldEq(other(fld)) != -1 && val(pa, -1, func(a string) bool {
+						return strings.Contains(a, "GetStatusCondition)(") && strings.HasSuffix(a, " == nil)")
+					}) != 1 {
 						ok, why = false, "a child whose condition "+strings.ToLower(fld)+" equals the configured one fails the check: a healthy child blocks the rollout for ever"
 					}
 				}
@@ -821,12 +824,18 @@ func r07_tables(r *Report, p *Program) {
 	}
 	var rows []map[string]string
 	for _, pa := range paths {
-		claimed := val(pa, -1, func(a string) bool { return strings.Contains(a, "childClaimMap.getKind)(") && strings.HasSuffix(a, "]#1") })
+		claimed := val(pa, -1, func(a string) bool {
+			return strings.Contains(a, "childClaimMap.getKind)(") && strings.HasSuffix(a, "]#1")
+		})
 		onLatest := val(pa, -1, func(a string) bool {
 			return strings.Contains(a, "childClaimMap.getKind)(") && strings.Contains(a, "]#0") && (strings.HasSuffix(a, " == p1[0])") || strings.HasPrefix(a, "(p1[0] == "))
 		})
-		observed := -val(pa, -1, func(a string) bool { return strings.HasPrefix(a, "(call(controller/common/api/v") && strings.Contains(a, "FindGroupKindName)(") && strings.HasSuffix(a, " == nil)") })
-		mergeOK := val(pa, -1, func(a string) bool { return strings.HasPrefix(a, "(call(controller/common.ApplyUpdate)(") && strings.HasSuffix(a, "#1 == nil)") })
+		observed := -val(pa, -1, func(a string) bool {
+			return strings.HasPrefix(a, "(call(controller/common/api/v") && strings.Contains(a, "FindGroupKindName)(") && strings.HasSuffix(a, " == nil)")
+		})
+		mergeOK := val(pa, -1, func(a string) bool {
+			return strings.HasPrefix(a, "(call(controller/common.ApplyUpdate)(") && strings.HasSuffix(a, "#1 == nil)")
+		})
 		noop := val(pa, -1, func(a string) bool { return strings.HasPrefix(a, "call(controller/common.DeepEqual)(") })
 		var effs []string
 		for _, e := range pa.Effects {
@@ -967,13 +976,17 @@ func conditionTables(r *Report, p *Program, rule string) {
 		if strings.HasSuffix(key, "SetCondition") {
 			want = "p1.Type"
 		}
-		isMap := func(a string) bool { return strings.HasPrefix(a, "assert<map[string]interface{}>(") && strings.HasSuffix(a, "#1") }
+		isMap := func(a string) bool {
+			return strings.HasPrefix(a, "assert<map[string]interface{}>(") && strings.HasSuffix(a, "#1")
+		}
 		isStr := func(a string) bool {
 			return strings.HasPrefix(a, "assert<string>(") && strings.HasSuffix(a, `["type"])#1`)
 		}
 		isEq := func(a string) bool { return strings.Contains(a, `["type"])#0 == `+want+")") }
 		paths, err := engine.EnumPaths(f, engine.EnumOpts{Start: l.Body, Leave: func(b *ssa.BasicBlock) bool { return b == l.Header || b == l.Exit },
-			Effect: func(in ssa.Instruction) bool { return isCallTo(in, "unstructured.SetNestedField", "object.NewStatusCondition") }})
+			Effect: func(in ssa.Instruction) bool {
+				return isCallTo(in, "unstructured.SetNestedField", "object.NewStatusCondition")
+			}})
 		ok, why := err == nil, ""
 		if err != nil {
 			why = err.Error()
